@@ -343,6 +343,12 @@ def grammar_features(g: Grammar) -> List[str]:
         # then judges the valid tree A -> C invalid
         if any(b != c and c in unit.get(b, ()) for b in us for c in us):
             out.add("grammar:unit_alternative_shortcut")
+        # the same confusion for any alternative X: <A> ::= ... | <B> | X  with  <B> ::= ... | X
+        # (e.g. <n0> ::= <n4> | "1", <n4> ::= "0" | "1": the valid tree n0 -> "1" is rejected)
+        alts_a = [tuple(alt) for alt in can[a]]
+        for b in us:
+            if b != a and any(x != (b,) and x in {tuple(alt) for alt in can.get(b, [])} for x in alts_a):
+                out.add("grammar:alternative_shared_with_unit_alternative")
     return sorted(out)
 
 
